@@ -174,6 +174,7 @@ pub fn build_extra_scenario(seed: u64, k: u64, tier: &str, _samples: &Samples) -
         p.xindex = img_idx % 4 == 3;
         p.xnum_zero = false;
         p.big = 0;
+        p.many_sections = 0;
         let mut b = gen::build(&mut g, &p);
         let m = Model::of(&b);
         let e = m.ehdr.unwrap();
